@@ -675,9 +675,19 @@ fn post_shrink(sub: &SubCheck, tier: Tier, known: &Arc<Vec<String>>, ff: &mut Fo
         }
     };
     let mut budget = 3000usize;
-    // strip trailing zeros (they are implied)
-    while ff.bytes.last() == Some(&0) {
-        ff.bytes.pop();
+    // strip trailing zeros (they are implied for `Src`; generators that hand the
+    // tail to `arbitrary::Unstructured` read lengths from the end, so verify)
+    {
+        let mut cand = ff.bytes.clone();
+        while cand.last() == Some(&0) {
+            cand.pop();
+        }
+        if cand.len() != ff.bytes.len() {
+            if let Some(f) = still_fails(&cand) {
+                ff.bytes = cand;
+                ff.failure = f;
+            }
+        }
     }
     let mut improved = true;
     while improved && budget > 0 {
@@ -717,8 +727,15 @@ fn post_shrink(sub: &SubCheck, tier: Tier, known: &Arc<Vec<String>>, ff: &mut Fo
                 i += blk;
             }
         }
-        while ff.bytes.last() == Some(&0) {
-            ff.bytes.pop();
+        let mut cand = ff.bytes.clone();
+        while cand.last() == Some(&0) {
+            cand.pop();
+        }
+        if cand.len() != ff.bytes.len() {
+            if let Some(f) = still_fails(&cand) {
+                ff.bytes = cand;
+                ff.failure = f;
+            }
         }
     }
 }
